@@ -1638,6 +1638,12 @@ def explore(prog, body, max_paths=2000, budget_s=600, **kw):
             value = body(I)
         except EndPath as e:
             ended = e.reason if not isinstance(e, UnwindBound) else "UNWIND: " + e.reason
+        except Unsupported as e:
+            # after a failed READ obligation the havoc'd value may reach constructs the interpreter does not model
+            # (e.g. a symbolic index into a vector of vectors): the recorded safety failure is the result of this path
+            if not I.safety:
+                raise
+            ended = "ABORTED after a failed safety obligation (%s)" % str(e)[:120]
         work.extend(I.ctx.alts)
         n += 1
         yield PathResult(I, value, ended, I.ctx.trace)
